@@ -265,9 +265,16 @@ def param_switch(ctx, rng, dev, D2, reg, ops, changed, case) -> None:
         only_slm = slm is not None and all(x.startswith(f"{slm}[") and "pulse samples differ" in x for x in d)
         mech = "strict-differs:slm-mask-dmm-pulse" if only_slm else \
             "strict-param-differs:" + "+".join(sorted({p for ps in changed.values() for p in ps if p in TIMING}) or ["other"])
-        if mech == "strict-param-differs:eom" and not any(" slots: " in x or "]: ('" in x for x in d):
-            # which part of the EOM configuration differs (timeline identical, only samples / off-detuning)
+        if mech == "strict-param-differs:eom":
+            # which part of the EOM configuration differs; the known finding applies when the two builds chose another
+            # off-detuning for a block on that channel (everything else in the diff follows from that: idle samples,
+            # drift corrections, fall times of the idle slots that 'wait-for-all' waits for)
+            s1, s2 = snapshot(b1), snapshot(b2)
+            off_differs = {c1["id"] for (n1, c1), (n2, c2) in zip(s1["chans"].items(), s2["chans"].items())
+                           if len(c1["eom"]) == len(c2["eom"]) and any(abs(x[4] - y[4]) > 1e-9 for x, y in zip(c1["eom"], c2["eom"]))}
             for cid, ps in changed.items():
+                if cid not in off_differs:
+                    continue
                 oc = next((c for c in dev["channels"] if c.get("id") == cid), None)
                 nc = next((c for c in case["device2"]["channels"] if c.get("id") in (cid, cid + "_x")), None)
                 if ps == {"eom"} and oc and nc and oc.get("eom") and nc.get("eom"):
